@@ -1,0 +1,7 @@
+//go:build !verif
+
+package app
+
+import gotime "time"
+
+func verifNow() (gotime.Time, bool) { return gotime.Time{}, false }
